@@ -70,10 +70,27 @@ def build(reg, src):
     def missing(eng, st, s, e):
         st.ghost['found'] = VBool(z3.BoolVal(False))
     F = 'klongpy/db/file_cache.py::FileCache.'
-    c = reg.fn(F + 'get_file', params=dict(file_name='opaque'), returns='nonnull', raises=['FileNotFoundError'], verify=False)
+    # FileNotFoundError: never set; IsADirectoryError: the key is a directory of the store (a prefix of a nested key) - never set either
+    c = reg.fn(F + 'get_file', params=dict(file_name='opaque'), returns='nonnull', raises=['FileNotFoundError', 'IsADirectoryError', 'MemoryError'], verify=False)
     c.ghost_at_call = got
     c.ghost_at_raise = missing
     reg.fn(F + 'update_file', returns=Bool, raises=['MemoryError', 'OSError'], verify=False)
+    # reading: a key that names no file reads as "no table" (the caller turns None into :undefined), it does not raise
+    def gd_setup(eng, st):
+        o = st.alloc('PandasDataFrameCache', dict(file_futures_lock=VOpaque(hint='lock', nonnull=True), append_locks=VOpaque(hint='locks', nonnull=True)),
+                     hint='self', fresh=False)
+        st.env['self'] = o
+        st.env['file_name'] = VOpaque(hint='file_name', nonnull=True)
+        for nm in ('range_start', 'range_end'):
+            st.env[nm] = NONE
+        st.env['range_type'] = lift('timestamp')
+        st.env['default_empty'] = lift(False)
+        st.ghost['found'] = VBool(z3.Const(fresh_name('found'), Bool))
+        st.ghost['stored'] = VOpaque(hint='stored', nonnull=True)
+        st.ghost['reads'] = lift(0)
+    reg.fn(D + 'get_dataframe', setup=gd_setup, returns='opaque', raises=['MemoryError'],
+           ensures=[lambda s, r: If(s.g('found'), same(r, s.g('stored')), is_none(r))])
+    reg.externals['pd.DataFrame'] = lambda e, st, a, k, n: [(st, VOpaque(hint='empty-frame', nonnull=True))]
     reg.externals['serialize_df'] = lambda e, st, a, k, n: [(st, VOpaque(hint='bytes', nonnull=True))]
     reg.externals['threading.Lock'] = lambda e, st, a, k, n: [(st, VOpaque(hint='lock', nonnull=True))]
 
@@ -175,6 +192,10 @@ def table_merge_check(ctx):
         eng.verify_fn(D + 'update')
     except Refuse as e:
         return [dict(name=D + 'update#refused', ok=False, undecided=True, backend='z3', detail=f"refused: {e}")]
+    try:
+        eng.verify_fn(D + 'get_dataframe')
+    except Refuse as e:
+        res.append(dict(name=D + 'get_dataframe#refused', ok=False, undecided=True, backend='z3', detail=f"refused: {e}"))
     obls = eng.obligations
     smt.discharge(obls, timeout_s=20 if ctx['tier'] == 'quick' else 90)
     n_real = 0
@@ -190,7 +211,7 @@ def table_merge_check(ctx):
         elif o.result == 'sat':
             from pyvc.run import run_replay
             import replay.c16 as rp
-            r = run_replay(rp.replay_table_merge, {}, o.name, timeout_s=60)
+            r = run_replay(rp.replay_table_missing_keys if 'get_dataframe' in o.name else rp.replay_table_merge, {}, o.name, timeout_s=60)
             res.append(dict(name=o.name, ok=False, backend=o.backend, confirmed=bool(r.get('confirmed')),
                             replay=dict(result=r, solver='sat', trail=o.meta.get('trail'), goal=str(o.goal)[:1500]),
                             detail=f"counter-model on path {o.meta.get('trail')}" + (f" | real code: {r.get('detail')}" if r.get('confirmed') else '')))
